@@ -115,6 +115,65 @@ func c14DocumentedOrder(dsl string, modular bool, fail func(string)) {
 	}
 }
 
+// c14ModularRelationOrder: in a modular model the relations of a type are printed by (module, file,
+// name) with unattributed ones first. The expected order is computed from the generator's own record
+// of each relation's attribution with an insertion sort and the comparator written from the property's
+// text (sortByModuleCmp), not from the repository's code or the Lean port.
+func c14ModularRelationOrder(m *Model, dsl string, fail func(string)) {
+	modular := false
+	for _, t := range m.Types {
+		if !t.MetaNil && t.Module != "" {
+			modular = true
+		}
+	}
+	if !modular {
+		return
+	}
+	printed := map[string][]string{}
+	cur := ""
+	for _, line := range strings.Split(dsl, "\n") {
+		switch {
+		case strings.HasPrefix(line, "type "):
+			if f := strings.Fields(line); len(f) >= 2 {
+				cur = f[1]
+			}
+		case strings.HasPrefix(line, "condition "):
+			cur = ""
+		case strings.HasPrefix(line, "    define ") && cur != "":
+			rest := strings.TrimPrefix(line, "    define ")
+			if i := strings.Index(rest, ":"); i > 0 {
+				printed[cur] = append(printed[cur], rest[:i])
+			}
+		}
+	}
+	type rk struct{ name, mod, file string }
+	for _, t := range m.Types {
+		ks := []rk{}
+		for _, r := range t.Rels {
+			k := rk{r.Name, r.Module, r.File}
+			if t.MetaNil || r.NoMeta {
+				k.mod, k.file = "", ""
+			}
+			ks = append(ks, k)
+		}
+		for i := 1; i < len(ks); i++ {
+			for j := i; j > 0 && sortByModuleCmp(ks[j-1].name, ks[j].name, ks[j-1].mod, ks[j].mod, ks[j-1].file, ks[j].file) > 0; j-- {
+				ks[j-1], ks[j] = ks[j], ks[j-1]
+			}
+		}
+		want := []string{}
+		for _, k := range ks {
+			want = append(want, k.name)
+		}
+		got := printed[t.Name]
+		if len(got) == len(want) && strings.Join(got, ",") != strings.Join(want, ",") {
+			fail("relations of the modular type " + t.Name + " are not printed by module, file, name (unattributed first): printed " +
+				strings.Join(got, ", ") + "; documented order " + strings.Join(want, ", "))
+			return
+		}
+	}
+}
+
 func c14One(c *Ctx, rng *rand.Rand, m *Model, stream string) {
 	c.R.Evaluations++
 	pm := m.Proto()
@@ -146,6 +205,7 @@ func c14One(c *Ctx, rng *rand.Rand, m *Model, stream string) {
 	// documented order, read off the real output independently of the port: condition parameters by
 	// name; relations of a plain (non-modular) type by name; conditions of a plain model by name
 	c14DocumentedOrder(plain, modular, func(detail string) { fail(detail, map[string]any{"dsl": plain}) })
+	c14ModularRelationOrder(m, plain, func(detail string) { fail(detail, map[string]any{"dsl": plain}) })
 	// repeated calls
 	for i := 0; i < 2; i++ {
 		_, again, _ := realPrint(pm, false)
@@ -245,8 +305,15 @@ func init() {
 		n := c.Pick(800, 10000)
 		for i := 0; i < n; i++ {
 			o := GenOpts{Conds: true, Modular: rng.Intn(3) > 0, MaxDepth: 1 + rng.Intn(4), DSLValid: rng.Intn(4) > 0}
+			if i%8 == 7 {
+				// large: more than a dozen relations per type / types per model (sort routines change algorithm with size)
+				o.Large, o.MaxDepth = true, 1
+			}
 			m := GenModel(rng, o)
 			c14One(c, rng, m, "generated")
+			if o.Large {
+				c.Dist("large_models")
+			}
 		}
 		// the excluded point of srcinfo_inert: a module / file name containing a newline
 		w := &Model{Schema: "1.2", Types: []Type{{Name: "user", Module: "core", File: "a\ntype injected"}, {Name: "doc", Module: "core", File: "core.fga",
